@@ -537,6 +537,28 @@ func ruleQueryPaths(r *Report) {
 		return n == 1
 	})
 	_ = why
+	// nothing touches the transaction after it went back to the pool
+	useAfter := false
+	var txnVal ssa.Value
+	for _, c := range callsTo(q, false, "(*column.txnPool).acquire") {
+		txnVal = c.(*ssa.Call)
+	}
+	for _, rel := range callsTo(q, false, "(*column.txnPool).release") {
+		allInstrs(q, func(ins ssa.Instruction) {
+			if ins == rel || !canReach(rel, ins) {
+				return
+			}
+			for _, op := range ins.Operands(nil) {
+				if *op != nil && txnVal != nil && sameExpr(*op, txnVal) {
+					if cc, _, _ := callCommon(ins); cc != nil && calleeIs(cc, "(*column.txnPool).release") {
+						continue
+					}
+					useAfter = true
+				}
+			}
+		})
+	}
+	h.Check(!useAfter && txnVal != nil, "no-use-after-release", r.P.InstrPos(cb), "the transaction is not touched after release", "Query uses the transaction after releasing it to the pool: another caller may already own it")
 	h.Check(once, "release-once", r.P.InstrPos(cb), "exactly one release on every path", "on some path the transaction is released to the pool more than once (or not at all): the pool then hands the same Txn to two concurrent callers")
 	// the error edge returns the callback's error
 	retOK := true
